@@ -564,7 +564,7 @@ func (v *Decoder) walkNode(ectx evaluationContext, n *html.Node) error {
 
 						// an ignored value (such as the empty safe CURIE) counts as an absent attribute
 						if typedResource == nil && attrHref != nil {
-							typedResource = resolveIRI(ectx, localPrefixMappings, *attrHref, localBaseURL, localDefaultVocabulary, false, true)
+							typedResource = resolveLinkIRI(*attrHref, localBaseURL)
 							typedResourceAnno = nil
 
 							if v.captureOffsets {
@@ -575,7 +575,7 @@ func (v *Decoder) walkNode(ectx evaluationContext, n *html.Node) error {
 						}
 
 						if typedResource == nil && attrSrc != nil {
-							typedResource = resolveIRI(ectx, localPrefixMappings, *attrSrc, localBaseURL, localDefaultVocabulary, false, true)
+							typedResource = resolveLinkIRI(*attrSrc, localBaseURL)
 							typedResourceAnno = nil
 
 							if v.captureOffsets {
@@ -635,7 +635,7 @@ func (v *Decoder) walkNode(ectx evaluationContext, n *html.Node) error {
 				}
 
 				if newSubject == nil && attrHref != nil {
-					if s := resolveIRI(ectx, localPrefixMappings, *attrHref, localBaseURL, localDefaultVocabulary, false, true); s != nil {
+					if s := resolveLinkIRI(*attrHref, localBaseURL); s != nil {
 						newSubject = s
 						newSubjectAnno = nil
 
@@ -648,7 +648,7 @@ func (v *Decoder) walkNode(ectx evaluationContext, n *html.Node) error {
 				}
 
 				if newSubject == nil && attrSrc != nil {
-					if s := resolveIRI(ectx, localPrefixMappings, *attrSrc, localBaseURL, localDefaultVocabulary, false, true); s != nil {
+					if s := resolveLinkIRI(*attrSrc, localBaseURL); s != nil {
 						newSubject = s
 						newSubjectAnno = nil
 
@@ -751,7 +751,7 @@ func (v *Decoder) walkNode(ectx evaluationContext, n *html.Node) error {
 			}
 
 			if currentObjectResource == nil && attrHref != nil {
-				if s := resolveIRI(ectx, localPrefixMappings, *attrHref, localBaseURL, localDefaultVocabulary, false, true); s != nil {
+				if s := resolveLinkIRI(*attrHref, localBaseURL); s != nil {
 					currentObjectResource = s
 					currentObjectResourceAnno = nil
 
@@ -764,7 +764,7 @@ func (v *Decoder) walkNode(ectx evaluationContext, n *html.Node) error {
 			}
 
 			if currentObjectResource == nil && attrSrc != nil {
-				if s := resolveIRI(ectx, localPrefixMappings, *attrSrc, localBaseURL, localDefaultVocabulary, false, true); s != nil {
+				if s := resolveLinkIRI(*attrSrc, localBaseURL); s != nil {
 					currentObjectResource = s
 					currentObjectResourceAnno = nil
 
@@ -1261,7 +1261,7 @@ func (v *Decoder) walkNode(ectx evaluationContext, n *html.Node) error {
 			}
 
 			if currentPropertyValue == nil && attrHref != nil {
-				if s := resolveIRI(ectx, localPrefixMappings, *attrHref, localBaseURL, localDefaultVocabulary, false, true); s != nil {
+				if s := resolveLinkIRI(*attrHref, localBaseURL); s != nil {
 					currentPropertyValue = s
 					currentPropertyValueAnno = nil
 
@@ -1274,7 +1274,7 @@ func (v *Decoder) walkNode(ectx evaluationContext, n *html.Node) error {
 			}
 
 			if currentPropertyValue == nil && attrSrc != nil {
-				if s := resolveIRI(ectx, localPrefixMappings, *attrSrc, localBaseURL, localDefaultVocabulary, false, true); s != nil {
+				if s := resolveLinkIRI(*attrSrc, localBaseURL); s != nil {
 					currentPropertyValue = s
 					currentPropertyValueAnno = nil
 
